@@ -46,6 +46,7 @@ SETTINGS = {
     "am1_md": lambda: sp.make_params("AM1", solver="adaptive", eps=1e-8),
     # a loose threshold shared by an MD run and a later single point through the SAME dictionary object
     "am1_loose": lambda: sp.make_params("AM1", solver="adaptive", eps=1e-5),
+    "pm3_loose": lambda: sp.make_params("PM3", solver="adaptive", eps=1e-5),
     # same method and elements, tables read from another directory (the alternative set shipped with the package)
     "pm6sp": lambda: sp.make_params("PM6_SP", solver="adaptive", eps=1e-8),
     "pm6sp_star": lambda: dict(sp.make_params("PM6_SP", solver="adaptive", eps=1e-8), parameter_file_dir=_star_dir()),
@@ -79,6 +80,9 @@ JOBS = {
     "L2": ("md", "am1_loose", "H2O", "xl"),
     "M2": ("md", "am1_loose", "H2O", "langevin"),
     "A4": ("sp", "am1_loose", "H2O"),
+    "Q": ("sp32", "am1_loose", "H2O"),  # a single-precision calculation (default dtype float32, restored afterwards)
+    "Q2": ("sp32", "pm3_loose", "CH4"),
+    "B2": ("sp", "pm3_loose", "CH4"),
     "P": ("sp", "pm6sp", "H2CO"),
     "PS": ("sp", "pm6sp_star", "H2CO"),
 }
@@ -141,6 +145,15 @@ def run_event(ev, ctx):
             molecule.verbose = False
             es(molecule)
             return _flat(sp.observe(molecule, es, ["Etot", "Hf", "force", "q", "e_mo", "e_gap", "cis_energies", "dm"]))
+        if kind == "sp32":
+            torch.set_default_dtype(torch.float32)
+            try:
+                molecule, es = sp.build(mol, params, dtype=torch.float32)
+                molecule.verbose = False
+                es(molecule)
+                return _flat(sp.observe(molecule, es, ["Etot", "Hf", "force", "q", "e_gap"]))
+            finally:
+                torch.set_default_dtype(torch.float64)
         if kind == "splearn":
             import torch as _t
 
@@ -347,7 +360,7 @@ def run(chk, tier, seed):
     if tier == "quick":
         stateful = ["A2:d", "A3:D", "E:d", "G:f", "X2:f", "AL:f"]
         probes_small = ["A:d", "F:f", "AL2:f"]
-        probes1 = ["A:d", "A2:d", "E2:d", "F:f", "L:f", "H:d", "D:d", "A:D", "AL:f", "A4:d", "PS:f", "P:d"]
+        probes1 = ["A:d", "A2:d", "E2:d", "F:f", "L:f", "H:d", "D:d", "A:D", "AL:f", "A4:d", "PS:f", "P:d", "B2:f", "Q:f"]
     else:
         probes1 = events
     for p in probes1:  # depth 1: full event alphabet as prefix
